@@ -4,20 +4,20 @@
  * Licensed under the GNU General Public License v2.0.
  */
 
-use alloc::borrow::ToOwned;
 use crate::config::SmartCalcConfig;
 use crate::types::*;
-use crate::tokinizer::Tokinizer;
+use crate::tokinizer::{Tokinizer, map_case};
 use regex::Regex;
 use crate::token::ui_token::{UiTokenType};
 use crate::tools::parse_timezone;
 
 pub fn timezone_regex_parser(config: &SmartCalcConfig, tokinizer: &mut Tokinizer, group_item: &[Regex]) {
+    let (uppercase_data, offsets) = map_case(&tokinizer.data, true);
     for re in group_item.iter() {
-        for capture in re.captures_iter(&tokinizer.data.to_owned().to_uppercase()) {
+        for capture in re.captures_iter(&uppercase_data) {
             if let Some((timezone, offset)) = parse_timezone(config, &capture) {
-                if tokinizer.add_token_from_match(&capture.get(0), Some(TokenType::Timezone(timezone, offset))) {
-                    tokinizer.add_uitoken_from_match(capture.name("timezone"), UiTokenType::Symbol1);
+                if tokinizer.add_token_from_mapped_match(&capture.get(0), &offsets, Some(TokenType::Timezone(timezone, offset))) {
+                    tokinizer.add_uitoken_from_mapped_match(capture.name("timezone"), &offsets, UiTokenType::Symbol1);
                 }
             };
         }
